@@ -1,5 +1,5 @@
 (* C32: both ends of a link compute the same solicitation set and its exact intersection. *)
-From Bifrost Require Import Lib.Base Lib.Lex Lib.Sym Solicit.Model Solicit.Proofs.
+From Bifrost Require Import Lib.Base Lib.Lex Lib.Sym Solicit.Model Solicit.Proofs Id.Model Id.Proofs.
 
 (* the session identifier is the same whichever side computes it *)
 Theorem c32_session_id_symmetric : forall a b, session_id a b = session_id b a.
@@ -15,6 +15,15 @@ Theorem c32_session_id_injective :
       session_id a b = session_id c d -> (a = c /\ b = d) \/ (a = d /\ b = c).
 Proof. exact session_id_inj. Qed.
 Print Assumptions c32_session_id_injective.
+
+(* instantiated: peer IDs accepted by the implementation (well-formed identity
+   multihashes, Id/Model.v wf_id, characterised in C10) are prefix-free, so the
+   session identifier differs for different peer pairs *)
+Theorem c32_session_id_injective_peer_ids :
+  forall a b c d, wf_id a -> wf_id b -> wf_id c -> wf_id d ->
+    session_id a b = session_id c d -> (a = c /\ b = d) \/ (a = d /\ b = c).
+Proof. exact (session_id_inj wf_id wf_id_prefix_free). Qed.
+Print Assumptions c32_session_id_injective_peer_ids.
 
 (* the matched set is the sorted multiset intersection: each value appears
    min(multiplicity in l, multiplicity in r) times ... *)
